@@ -60,12 +60,12 @@ func planFor(prop, tier string) (tierPlan, bool) {
 		if q {
 			return tierPlan{batches: []batch{{engine: "hist", runs: 160000}, {engine: "sched", runs: 12000, coldRuns: 160}, {engine: "sched", race: true, deep: true, runs: 800, coldRuns: 240}}, level: "exploration"}, true
 		}
-		return tierPlan{batches: []batch{{engine: "hist", runs: 1000000}, {engine: "sched", runs: 400000, coldRuns: 3000}, {engine: "sched", race: true, deep: true, runs: 60000, coldRuns: 6000}}, level: "exploration"}, true
+		return tierPlan{batches: []batch{{engine: "hist", runs: 1000000}, {engine: "sched", runs: 200000, coldRuns: 3000}, {engine: "sched", race: true, deep: true, runs: 20000, coldRuns: 1500}}, level: "exploration"}, true
 	case "C07":
 		if q {
 			return tierPlan{batches: []batch{{engine: "sched", race: true, runs: 48000, coldRuns: 480}, {engine: "sched", race: true, deep: true, runs: 4000, coldRuns: 96}}, level: "exploration"}, true
 		}
-		return tierPlan{batches: []batch{{engine: "sched", race: true, runs: 2400000, coldRuns: 12000}, {engine: "sched", race: true, deep: true, runs: 300000, coldRuns: 3000}}, level: "exploration"}, true
+		return tierPlan{batches: []batch{{engine: "sched", race: true, runs: 1000000, coldRuns: 8000}, {engine: "sched", race: true, deep: true, runs: 60000, coldRuns: 1500}}, level: "exploration"}, true
 	}
 	return tierPlan{}, false
 }
